@@ -218,7 +218,7 @@ def check_c08(case, stats):
 
 
 CHECKS = {'check_c08': check_c08}
-_B = {'quick': 25, 'thorough': 400}
+_B = {'quick': 60, 'thorough': 500}
 
 
 def shards(tier):
